@@ -1,5 +1,1 @@
 package main
-
-type FieldState struct{}
-
-func (f *FieldState) genericityList() []string { return nil }
